@@ -102,6 +102,9 @@ func mergeYaml(e any, o any, p tree.Path) (any, error) {
 }
 
 func mergeMappings(mapping map[string]any, other map[string]any, p tree.Path) (map[string]any, error) {
+	if mapping == nil {
+		mapping = map[string]any{}
+	}
 	for k, v := range other {
 		e, ok := mapping[k]
 		if !ok || strings.HasPrefix(k, "x-") {
@@ -120,8 +123,17 @@ func mergeMappings(mapping map[string]any, other map[string]any, p tree.Path) (m
 
 // logging driver options are merged only when both compose file define the same driver
 func mergeLogging(c any, o any, p tree.Path) (any, error) {
-	config := c.(map[string]any)
-	other := o.(map[string]any)
+	if o == nil {
+		return c, nil
+	}
+	config, ok := c.(map[string]any)
+	if !ok && c != nil {
+		return nil, fmt.Errorf("cannot override %s", p)
+	}
+	other, ok := o.(map[string]any)
+	if !ok {
+		return nil, fmt.Errorf("cannot override %s", p)
+	}
 	// we override logging config if source and override have the same driver set, or none
 	d, ok1 := other["driver"]
 	o, ok2 := config["driver"]
@@ -143,24 +155,40 @@ func mergeBuild(c any, o any, path tree.Path) (any, error) {
 		}
 		return nil
 	}
-	return mergeMappings(toBuild(c), toBuild(o), path)
+	base, other := toBuild(c), toBuild(o)
+	if (base == nil && c != nil) || (other == nil && o != nil) {
+		return nil, fmt.Errorf("cannot override %s", path)
+	}
+	return mergeMappings(base, other, path)
 }
 
 func mergeDependsOn(c any, o any, path tree.Path) (any, error) {
-	right := convertIntoMapping(c, map[string]any{
+	right, err := convertIntoMapping(c, map[string]any{
 		"condition": "service_started",
 		"required":  true,
-	})
-	left := convertIntoMapping(o, map[string]any{
+	}, path)
+	if err != nil {
+		return nil, err
+	}
+	left, err := convertIntoMapping(o, map[string]any{
 		"condition": "service_started",
 		"required":  true,
-	})
+	}, path)
+	if err != nil {
+		return nil, err
+	}
 	return mergeMappings(right, left, path)
 }
 
 func mergeNetworks(c any, o any, path tree.Path) (any, error) {
-	right := convertIntoMapping(c, nil)
-	left := convertIntoMapping(o, nil)
+	right, err := convertIntoMapping(c, nil, path)
+	if err != nil {
+		return nil, err
+	}
+	left, err := convertIntoMapping(o, nil, path)
+	if err != nil {
+		return nil, err
+	}
 	return mergeMappings(right, left, path)
 }
 
@@ -227,10 +255,30 @@ func mergeUlimit(_ any, o any, p tree.Path) (any, error) {
 
 func mergeIPAMConfig(c any, o any, path tree.Path) (any, error) {
 	var ipamConfigs []any
-	for _, original := range c.([]any) {
-		right := convertIntoMapping(original, nil)
-		for _, override := range o.([]any) {
-			left := convertIntoMapping(override, nil)
+	if o == nil {
+		return c, nil
+	}
+	base, ok := c.([]any)
+	if !ok && c != nil {
+		return nil, fmt.Errorf("cannot override %s", path)
+	}
+	other, ok := o.([]any)
+	if !ok {
+		return nil, fmt.Errorf("cannot override %s", path)
+	}
+	if len(base) == 0 {
+		return other, nil
+	}
+	for _, original := range base {
+		right, ok := original.(map[string]any)
+		if !ok {
+			return nil, fmt.Errorf("cannot override %s", path)
+		}
+		for _, override := range other {
+			left, ok := override.(map[string]any)
+			if !ok {
+				return nil, fmt.Errorf("cannot override %s", path)
+			}
 			if left["subnet"] != right["subnet"] {
 				// check if left is already in ipamConfigs, add it if not and continue with the next config
 				if !slices.ContainsFunc(ipamConfigs, func(a any) bool {
@@ -260,23 +308,29 @@ func mergeIPAMConfig(c any, o any, path tree.Path) (any, error) {
 	return ipamConfigs, nil
 }
 
-func convertIntoMapping(a any, defaultValue map[string]any) map[string]any {
+func convertIntoMapping(a any, defaultValue map[string]any, p tree.Path) (map[string]any, error) {
 	switch v := a.(type) {
+	case nil:
+		return nil, nil
 	case map[string]any:
-		return v
+		return v, nil
 	case []any:
 		converted := map[string]any{}
 		for _, s := range v {
+			key, ok := s.(string)
+			if !ok {
+				return nil, fmt.Errorf("%s: unexpected type %T", p, s)
+			}
 			if defaultValue == nil {
-				converted[s.(string)] = nil
+				converted[key] = nil
 			} else {
 				// Create a new map for each key
-				converted[s.(string)] = copyMap(defaultValue)
+				converted[key] = copyMap(defaultValue)
 			}
 		}
-		return converted
+		return converted, nil
 	}
-	return nil
+	return nil, fmt.Errorf("cannot override %s", p)
 }
 
 func copyMap(m map[string]any) map[string]any {
